@@ -7,15 +7,26 @@
    the time of the call - and nothing if there was none. *)
 From Tab Require Export Spec.History Model.Table.
 
-Record tspec := mkTS {
-  ts_sp    : spstate item;
+Record gtspec (A : Type) := mkTS {
+  ts_sp    : spstate A;
   ts_align : list (nat * option align);     (* settings, latest first *)
   ts_skip  : list (nat * option skipv)
 }.
+Arguments mkTS {A}.
+Arguments ts_sp {A}.
+Arguments ts_align {A}.
+Arguments ts_skip {A}.
 
-Definition tspec_init : tspec := mkTS sp_init [] [].
+(* the latest setting of column i; None = never set, or set to nil last *)
+Definition setting {B} (l : list (nat * option B)) (i : nat) : option B :=
+  match assoc i l with Some v => v | None => None end.
 
-Definition tspec_step (ts : tspec) (o : top) : tspec :=
+Section TableSpec.
+Context {A : Type}.
+
+Definition tspec_init : gtspec A := mkTS sp_init [] [].
+
+Definition tspec_step (ts : gtspec A) (o : gtop A) : gtspec A :=
   match o with
   | TCore c => mkTS (sp_step (ts_sp ts) c) (ts_align ts) (ts_skip ts)
   | TSetAlign n a =>
@@ -24,13 +35,9 @@ Definition tspec_step (ts : tspec) (o : top) : tspec :=
       if n <=? e_ncols (ts_sp ts) then mkTS (ts_sp ts) (ts_align ts) ((n, s) :: ts_skip ts) else ts
   end.
 
-Definition tspec_run (h : list top) : tspec := fold_left tspec_step h tspec_init.
+Definition tspec_run (h : list (gtop A)) : gtspec A := fold_left tspec_step h tspec_init.
 
-(* the latest setting of column i; None = never set, or set to nil last *)
-Definition setting {B} (l : list (nat * option B)) (i : nat) : option B :=
-  match assoc i l with Some v => v | None => None end.
-
-Definition spec_table_view (f : item -> vcell) (ts : tspec) : view :=
+Definition spec_table_view (f : A -> vcell) (ts : gtspec A) : view :=
   let sp := ts_sp ts in
   let n := e_ncols sp in
   mkView n
@@ -42,22 +49,25 @@ Definition spec_table_view (f : item -> vcell) (ts : tspec) : view :=
 (* the histories the end-to-end statements quantify over: the building calls
    form a well-formed core history (Spec/History.v wf_hist); property settings
    may come anywhere, on any column number (a missing column is a no-op) *)
-Definition twf_hist (h : list top) : Prop := wf_hist (core_ops h).
-Definition twf_histb (h : list top) : bool := wf_histb (core_ops h).
+Definition twf_hist (h : list (gtop A)) : Prop := wf_hist (core_ops h).
+Definition twf_histb (h : list (gtop A)) : bool := wf_histb (core_ops h).
 
 Lemma twf_histb_sound h : twf_histb h = true -> twf_hist h.
 Proof. apply wf_histb_sound. Qed.
 
-(* the items of the header / of each non-separator row, in order: what every
-   renderer must show, as texts, is [map text] of these *)
-Definition hist_header (h : list top) : option (list item) := sp_header (ts_sp (tspec_run h)).
-Definition hist_rows (h : list top) : list (option (list item)) := sp_rows (ts_sp (tspec_run h)).
-Definition hist_ncols (h : list top) : nat := e_ncols (ts_sp (tspec_run h)).
-Definition hist_records (h : list top) : list (list item) :=
+(* what the header / each non-separator row carries, in order: what every
+   renderer must show is [map f] of these *)
+Definition hist_header (h : list (gtop A)) : option (list A) := sp_header (ts_sp (tspec_run h)).
+Definition hist_rows (h : list (gtop A)) : list (option (list A)) := sp_rows (ts_sp (tspec_run h)).
+Definition hist_ncols (h : list (gtop A)) : nat := e_ncols (ts_sp (tspec_run h)).
+Definition hist_records (h : list (gtop A)) : list (list A) :=
   match hist_header h with Some xs => [xs] | None => [] end
   ++ flat_map (fun r => match r with Some xs => [xs] | None => [] end) (hist_rows h).
 
 (* the latest alignment / skipable value set through a handle of column i
    (0 = the all-columns default); None = never set, or set to nil last *)
-Definition hist_align (h : list top) (i : nat) : option align := setting (ts_align (tspec_run h)) i.
-Definition hist_skip (h : list top) (i : nat) : option skipv := setting (ts_skip (tspec_run h)) i.
+Definition hist_align (h : list (gtop A)) (i : nat) : option align := setting (ts_align (tspec_run h)) i.
+Definition hist_skip (h : list (gtop A)) (i : nat) : option skipv := setting (ts_skip (tspec_run h)) i.
+End TableSpec.
+
+Notation tspec := (gtspec item).
